@@ -62,6 +62,12 @@ class PyFunction(pyobjects.PyFunction):
             for index, name in enumerate(self.get_param_names()):
                 # TODO: handle tuple parameters
                 result[name] = pynamesdef.ParameterName(self, index)
+            # positional-only and keyword-only parameters are names of the
+            # function's scope as well (their passed objects are not tracked)
+            arguments = self.arguments
+            for node in getattr(arguments, "posonlyargs", []) + arguments.kwonlyargs:
+                if node.arg not in result:
+                    result[node.arg] = pynamesdef.ParameterName(self, len(result))
             self.parameter_pynames = result
         return self.parameter_pynames
 
